@@ -10,7 +10,7 @@ import quantem.core.utils.validators as valmod
 from quantem.core.datastructures.dataset import Dataset
 
 from ..common import seed
-from ..sym.claims import Rel, decide, register
+from ..sym.claims import Rel, decide, decide_many, register
 from ..sym.npx import dft, is_sym
 
 TECHNIQUE = ("term-valued (symbolic) execution of the real NumPy code of Dataset.bin/fourier_resample/pad/crop on arrays "
@@ -243,6 +243,5 @@ def run(check, tier):
                           "model says (validated on every run against real NumPy at random inputs)"]
     check.outside += ["4-D arrays (same code path)", "rounding of round(shape*factor) for non-representable factors", "integer dtypes"]
     check.engines.add("symnum + z3 " + __import__("z3").get_version_string())
-    for name, claim, opts in cases(tier):
-        decide(check, name, claim, timeout_s=60 if tier == "quick" else 300, validate=1 if tier == "quick" else 2,
-               tol_default=None, key=name.split("[")[0], **opts)
+    decide_many(check, [(n, c, dict(o, key=n.split("[")[0])) for n, c, o in cases(tier)],
+                timeout_s=60 if tier == "quick" else 300, validate=1 if tier == "quick" else 3)
